@@ -186,15 +186,19 @@ Scenario generate(const std::string& prop, uint64_t seed, const std::string& tie
     if ((prop == "C03" || prop == "C15") && r.chance(0.2)) {
         const bool rot = r.chance(0.6);
         sc.kernel = rot ? "rot" : "unif";
-        static const char* exr[] = {"omp", "omp", "omptsm", "seq"};
+        static const char* exr[] = {"omp", "omptsm", "omptsm", "seq", "seqtsm"};
         static const char* exu[] = {"omp", "omp", "omp", "seq"};
-        sc.executor = rot ? exr[r.below(prop == "C03" ? 3 : 4)] : exu[r.below(prop == "C03" ? 3 : 4)];
+        sc.executor = rot ? exr[r.below(prop == "C03" ? 3 : 5)] : exu[r.below(prop == "C03" ? 3 : 4)];
         numeric = true;
     }
     if (!numeric && (prop == "C02" || prop == "C03" || prop == "C15" || prop == "C13") && r.chance(0.12)
         && (sc.executor == "seq" || sc.executor == "omp" || sc.executor == "seqtsm" || sc.executor == "omptsm")) {
         sc.kernel = "weight_float";   // single-precision tree (positions, data) with the exact integer kernel
         numeric = false;
+    }
+    if (!numeric && sc.kernel == "weight" && (prop == "C13" || prop == "C02" || prop == "C03" || prop == "C15") && r.chance(prop == "C13" ? 0.25 : 0.08)
+        && (sc.executor == "seq" || sc.executor == "omp" || sc.executor == "seqtsm" || sc.executor == "omptsm")) {
+        sc.kernel = r.chance(0.5) ? "weight_s35" : "weight_s62";   // other container shapes: 3 data / 5 result values, 6 data / 2 result values
     }
     if (const char* f = getenv("TBFSIM_FORCE_KERNEL")) { sc.kernel = f; numeric = (sc.kernel == "rot" || sc.kernel == "unif"); if (sc.kernel == "unif" && sc.isTsm()) sc.executor = "omp"; }
     // ordering
@@ -209,7 +213,8 @@ Scenario generate(const std::string& prop, uint64_t seed, const std::string& tie
         sc.ordering = x < pm ? "morton" : (x < pm + pp ? "periodic" : "hilbert");
         (void)ph;
         if (const char* f = getenv("TBFSIM_FORCE_ORDERING")) sc.ordering = f;
-        if (sc.executor.rfind("specx", 0) == 0 || sc.executor.rfind("starpu", 0) == 0 || numeric || sc.isFloat()) sc.ordering = "morton";
+        if (sc.executor.rfind("specx", 0) == 0 || sc.executor.rfind("starpu", 0) == 0 || numeric || sc.isFloat() || sc.kernel.rfind("weight_s", 0) == 0) sc.ordering = "morton";
+        if (sc.kernel == "rot" && r.chance(0.35)) sc.ordering = "periodic";   // the rotation kernel also ships a periodic near field
     }
 
     sc.height = int(pickWeighted(r, {{1, 3}, {2, 7}, {3, 25}, {4, 32}, {5, 25}, {6, 8}}));
@@ -233,13 +238,26 @@ Scenario generate(const std::string& prop, uint64_t seed, const std::string& tie
     if (!sc.isTsm()) {
         genCloud(r, kind, n, sc.height, sc.src, lo, hi);
     } else {
-        const int mode = int(r.below(6));
+        const int mode = int(r.below(8));   // 6, 7: "in phase" - the target set is the source set with a few particles displaced
         const long nt = 1 + long(std::pow(r.unit(), 1.7) * double(maxN - 1));
         double sLo[3] = {0, 0, 0}, sHi[3] = {1, 1, 1}, tLo[3] = {0, 0, 0}, tHi[3] = {1, 1, 1};
         if (mode == 0) { const int d = int(r.below(3)); sHi[d] = 0.5; tLo[d] = 0.5; }               // disjoint regions
         if (mode == 1) { const int d = int(r.below(3)); sHi[d] = 0.6; tLo[d] = 0.4; }               // overlapping
         genCloud(r, mode == 3 ? 4 : kind, mode == 4 ? 1 : n, sc.height, sc.src, sLo, sHi);
         if (mode == 2) { sc.tgt = sc.src; }                                                           // identical positions
+        else if (mode >= 6) {
+            // same leaves at the group boundaries, same counts, but different inner leaves: group summaries coincide
+            sc.tgt = sc.src;
+            const int moves = 1 + int(r.below(3));
+            for (int k = 0; k < moves && !sc.tgt.empty(); ++k) {
+                const size_t who = size_t(r.below(sc.tgt.size()));
+                for (int d = 0; d < 3; ++d) sc.tgt[who][size_t(d)] = r.unit();
+            }
+            if (r.chance(0.5)) for (int k = 0; k < moves && !sc.src.empty(); ++k) {
+                const size_t who = size_t(r.below(sc.src.size()));
+                for (int d = 0; d < 3; ++d) sc.src[who][size_t(d)] = r.unit();
+            }
+        }
         else genCloud(r, mode == 5 ? 4 : int(r.below(8)), mode == 5 && r.chance(0.5) ? 1 : nt, sc.height, sc.tgt, tLo, tHi);
     }
     toBox(sc, sc.src);
@@ -253,7 +271,7 @@ Scenario generate(const std::string& prop, uint64_t seed, const std::string& tie
     sc.oneGroupPerParent = r.chance(0.35);
     sc.upper = r.chance(0.7) ? (sc.isPeriodic() ? 1 : 2) : long(r.below(uint64_t(sc.height + 1)));
     if (prop == "C12") sc.upper = long(r.below(uint64_t(sc.height + 1)));
-    if (numeric) sc.upper = 2;   // the shipped floating-point kernels hold operators for the default working levels only
+    if (numeric) sc.upper = sc.isPeriodic() ? 1 : 2;   // the shipped floating-point kernels hold operators for the documented working levels only
     if (sc.upper == 2 && r.chance(0.5)) sc.upperDefault = true;   // TbfDefaultLastLevel through the constructors' default argument
     sc.threadsCtor = 1 + int(r.below(16));
     sc.threadsExec = sc.threadsCtor;
